@@ -1,0 +1,9 @@
+//go:build verif
+
+// Lock discipline declarations for the cesium DB (read as text by /verif's govc; comment-only).
+
+package cesium
+
+//@ guarded_by DB.mu.dbs.unary mu
+//@ guarded_by DB.mu.dbs.virtual mu
+//@ guarded_by DB.mu.digests.key mu
